@@ -148,7 +148,8 @@ def case_lstsq(c, code):
     obs["ambiguous_threshold"] = ambiguous
     if not ambiguous:
         Uk, sk, Vk = U[:, keep], s[keep], Vh[keep, :]
-        x_ref = Vk.T @ ((Uk.T @ b) / sk) if keep else np.zeros(A.shape[1])
+        sk_div = sk if b.ndim == 1 else sk[:, None]          # b may hold several right-hand sides (m, p)
+        x_ref = Vk.T @ ((Uk.T @ b) / sk_div) if keep else np.zeros((A.shape[1],) + b.shape[1:])
         cond_keep = float(sk[0] / sk[-1]) if keep else 1.0
         tol = 1e-9 + 64 * EPS * cond_keep
         e = relerr(x, x_ref) if float(np.linalg.norm(x_ref)) > 0 else float(np.linalg.norm(x))
@@ -330,7 +331,136 @@ def case_view(c, code):
     return {"obs": obs, "fails": fails}
 
 
-KINDS = {"lstsq": case_lstsq, "newton": case_newton, "roundtrip": case_roundtrip, "view": case_view}
+# ---- sequences of calls on ONE optimizer: every step uses this call's arguments only ----------------
+def case_sequence(c, code):
+    """step / solve / solver.step calls on one Optimize object with per-call rcond, sing_val_cutoff,
+    broyden.  After each call the knobs must be where the model puts them: every Newton step taken in
+    a call = the minimum-norm least-squares solution over the singular values retained by THAT call's
+    rcond / cutoff (None: SVD's default 1e-14, all values), computed here from an independent numpy
+    decomposition of the exact Jacobian of the linear problem."""
+    A, t = arr(c["A"]), arr(c["t"])
+    w, tw = arr(c["weights"]), arr(c["target_weights"])
+    n = A.shape[1]
+    tol = float.fromhex(c["tol"])
+    fails, obs = [], {"calls": []}
+    opt, cont, fun = mk_opt(c)
+    J = (A * tw[:, None]) * w[None, :]                     # d(weighted residual)/dx, x = knob / weight
+    U, s, Vh = np.linalg.svd(J, full_matrices=False)
+    k = len(s)
+    x_init = arr(c["x0"]) / w
+    x = x_init.copy()
+    cache_x = None                                         # where the solver's Jacobian cache was taken
+    synced = False                                         # solver.x equals the knobs
+
+    def resid(xx):
+        return A @ (xx * w) - t
+
+    def within(xx):
+        e = float(np.max(np.abs(resid(xx))))
+        return True if e < 0.5 * tol else (False if e > 2 * tol else None)
+
+    def model_step(xx, rc, cut):
+        rc_eff = 1e-14 if rc is None else rc
+        idx = list(range(k))[:(k if cut is None else cut)]
+        keep, amb = [], False
+        for i in idx:
+            thr = rc_eff * s[idx[0]]
+            if abs(s[i] - thr) <= 1e-3 * s[0]:
+                amb = True
+            if s[i] > 0 and not s[i] < thr:
+                keep.append(i)
+        r = tw * resid(xx)
+        step = Vh[keep, :].T @ ((U[:, keep].T @ r) / s[keep]) if keep else np.zeros(n)
+        return xx - step, amb, len(keep)
+
+    for ci, call in enumerate(c["calls"]):
+        api = call["api"]
+        rc = None if call["rcond"] is None else float.fromhex(call["rcond"])
+        cut, bro, nst = call["cutoff"], bool(call["broyden"]), int(call["n"])
+        rec = {"api": api}
+        if api == "reload0":
+            quiet(opt.reload, 0)
+            x = x_init.copy()
+            synced = False
+        else:
+            if api == "solver.step" and not synced:
+                api = "step"                                # the solver has no current point of its own yet
+            if bro and (cache_x is None or float(np.linalg.norm(x - cache_x)) < 1e-3):
+                bro = False                                 # a Broyden update over a (nearly) zero move is noise / 0/0
+            # the model: steps of this call, from this call's arguments only
+            xm, stop_judging, moved, moved_small = x.copy(), False, 0, False
+            for i in range(nst):
+                wi = within(xm)
+                if wi is None:
+                    stop_judging = True
+                    break
+                if wi:
+                    break
+                if bro and i > 0 and moved_small:
+                    stop_judging = True                     # later Broyden updates over tiny moves: not predicted
+                    break
+                xn, amb, nkeep = model_step(xm, rc, cut)
+                if amb:
+                    stop_judging = True
+                    break
+                moved_small = float(np.linalg.norm(xn - xm)) < 1e-3
+                cache_x = xm.copy()
+                xm = xn
+                moved += 1
+            rec.update({"steps_modelled": moved, "broyden": bro})
+            exp_fail = None
+            if not stop_judging:
+                wi = within(xm)
+                if api == "solve":
+                    if wi is None:
+                        stop_judging = True
+                    else:
+                        exp_fail = not wi
+            kw = {"rcond": rc, "sing_val_cutoff": cut, "broyden": bro}
+            raised = None
+            try:
+                if api == "step":
+                    quiet(opt.step, nst, **kw)
+                elif api == "solve":
+                    quiet(opt.solve, n_steps=nst, **kw)
+                else:
+                    quiet(opt.solver.step, nst, **kw)
+            except Exception as ex:
+                raised = f"{type(ex).__name__}: {str(ex)[:100]}"
+            synced = raised is None
+            if stop_judging:
+                rec["not_predicted"] = True
+                obs["calls"].append(rec)
+                obs["stopped_at"] = ci
+                break
+            if api == "solve" and exp_fail:
+                x = x_init.copy()                           # restore_if_fail: back to iteration 0 of the log
+                synced = False
+            else:
+                x = xm
+            got = np.array([cont[f"k{i}"] for i in range(n)], dtype=float)
+            err = float(np.linalg.norm(got - x * w))
+            lim = 1e-6 * (1 + float(np.linalg.norm(x * w)) + float(np.linalg.norm(x_init * w)))
+            rec.update({"err": err, "raised": raised, "expected_failure": exp_fail})
+            if api == "solve" and (raised is not None) != bool(exp_fail):
+                fails.append(["sequence", f"call {ci} solve(rcond={rc}, sing_val_cutoff={cut}, broyden={bro}): "
+                              + ("raised " + str(raised) if raised else "succeeded") + " but the least-squares steps of this call's arguments "
+                              + ("do not reach" if exp_fail else "reach") + " the tolerance", ci])
+            elif api != "solve" and raised is not None:
+                fails.append(["sequence", f"call {ci} {api} raised {raised}", ci])
+            elif not np.all(np.isfinite(got)) or err > lim:
+                fails.append(["sequence", f"call {ci} {api}(n={nst}, rcond={rc}, sing_val_cutoff={cut}, broyden={bro}): the knobs are not where the "
+                              "minimum-norm least-squares steps over the singular values retained by THIS call's arguments lead",
+                              hx(got), hx(x * w), err, lim, ci])
+        obs["calls"].append(rec)
+        if fails:
+            break
+    obs["judged_calls"] = sum(1 for r in obs["calls"] if "err" in r)
+    obs["plain_after_truncating"] = c.get("plain_after_truncating", False)
+    return {"obs": obs, "fails": fails}
+
+
+KINDS = {"lstsq": case_lstsq, "newton": case_newton, "roundtrip": case_roundtrip, "view": case_view, "sequence": case_sequence}
 
 
 def main():
